@@ -34,10 +34,18 @@ func layoutItems(c *Ctx, numericOnly bool) []Item {
 	for _, mc := range c.msgCases(ns, c.thorough(), c.thorough()) {
 		mc := mc
 		if numericOnly {
-			items = append(items, Item{ID: "msg:" + mc.ID(), Run: func(c *Ctx) { c02enc(c, mc, true) }})
+			items = append(items, Item{ID: "msg:" + mc.ID(), Run: func(c *Ctx) { c02enc(c, mc, true, false) }})
+			if fi := c.frameInfo(mc.Mod, mc.Typ); fi != nil && fi.Alg != "" && mc.N == 0 {
+				// the layout holds whatever is registered: with the checksum service absent the caller's value goes out,
+				// in the protocol's byte order
+				items = append(items, Item{ID: "msg:" + mc.ID() + "/registry=empty", Run: func(c *Ctx) { c02enc(c, mc, true, true) }})
+			}
 			continue
 		}
-		items = append(items, Item{ID: "enc:" + mc.ID(), Run: func(c *Ctx) { c02enc(c, mc, false) }})
+		items = append(items, Item{ID: "enc:" + mc.ID(), Run: func(c *Ctx) { c02enc(c, mc, false, false) }})
+		if fi := c.frameInfo(mc.Mod, mc.Typ); fi != nil && fi.Alg != "" && mc.N == 0 {
+			items = append(items, Item{ID: "enc:" + mc.ID() + "/registry=empty", Run: func(c *Ctx) { c02enc(c, mc, false, true) }})
+		}
 		items = append(items, Item{ID: "dec:" + mc.ID(), Run: func(c *Ctx) { c02dec(c, mc) }})
 	}
 	return items
@@ -73,21 +81,47 @@ func regionGoal(a, b *Bytes, start, end *Term, maxLen int) *Term {
 	return And(cs...)
 }
 
-func c02enc(c *Ctx, mc MsgCase, numericOnly bool) {
+func c02enc(c *Ctx, mc MsgCase, numericOnly bool, noreg bool) {
 	h := c.newHarness(mc, "wide", 0)
 	e := c.e()
+	if noreg {
+		fn := c.w.fn("codec.Clear")
+		if fn == nil {
+			c.Inconclusive("codec.Clear not found")
+			return
+		}
+		e.pushCall(h.s, fn, nil, nil)
+		fin := e.Run(h.s)
+		if len(fin) != 1 || fin[0].panicd != "" || fin[0].cut != "" {
+			c.Inconclusive("codec.Clear did not run to a single result")
+			return
+		}
+		h.s = fin[0]
+		h.s.frames = nil
+	}
+	encSteps := func(val func(*Term) uint64) []map[string]any {
+		st := h.encodeSteps(val)
+		if noreg {
+			st = append([]map[string]any{step("op", "registry", "ops", []map[string]any{step("op", "Clear")})}, st...)
+		}
+		return st
+	}
+	shift := 0
+	if noreg {
+		shift = 1
+	}
 	bufPtr := &Ptr{Obj: h.bufID}
 	e.pushCall(h.s, h.enc, []Value{h.mPtr, bufPtr}, nil)
 	for _, fs := range e.Run(h.s) {
 		if c.PathProblem(fs, "Encode", func(val func(*Term) uint64, msg string) *Violation {
 			return &Violation{Obligation: "encode-no-panic", Detail: "Encode panics: " + msg,
-				Replay: &ReplayReq{Steps: h.encodeSteps(val), Judge: Judge{Kind: "panic"}}}
+				Replay: &ReplayReq{Steps: encSteps(val), Judge: Judge{Kind: "panic"}}}
 		}) {
 			continue
 		}
 		if h.enc.Signature.Results().Len() > 0 && !isNilErr(fs.ret) {
 			c.Prove(fs, "encode-succeeds", False, func(val func(*Term) uint64) *Violation {
-				return &Violation{Detail: "Encode returns an error", Replay: &ReplayReq{Steps: h.encodeSteps(val), Judge: Judge{Kind: "err_nonnil", Step: 2}}}
+				return &Violation{Detail: "Encode returns an error", Replay: &ReplayReq{Steps: encSteps(val), Judge: Judge{Kind: "err_nonnil", Step: 2 + shift}}}
 			})
 			continue
 		}
@@ -96,6 +130,16 @@ func c02enc(c *Ctx, mc MsgCase, numericOnly bool) {
 		// established region by region against the reference; the length obligation ties the two lengths)
 		so := h.sumOracle(fs)
 		h.ref.Sum = func(alg string, frame *Bytes) *Term { return so(alg, SliceBytes(out, CI(0), frame.Len)) }
+		if noreg {
+			// no service: the value the caller left in the checksum field goes out
+			ts := c.sc.Mods[mc.Mod].Types[mc.Typ]
+			for i := range ts.Fields {
+				if ts.Fields[i].Kind == "computed_sum" {
+					cs := h.m.F[i].T
+					h.ref.Sum = func(alg string, frame *Bytes) *Term { return cs }
+				}
+			}
+		}
 		h.ref.Nums, h.ref.Leaves = nil, nil
 		refB, _ := h.ref.Enc(h.m)
 		c.Witness(fs, "encode path", func(val func(*Term) uint64) any {
@@ -104,14 +148,14 @@ func c02enc(c *Ctx, mc MsgCase, numericOnly bool) {
 		mkViol := func(what string) func(val func(*Term) uint64) *Violation {
 			return func(val func(*Term) uint64) *Violation {
 				want := hexOf(evalBytes(refB, val))
-				j := Judge{Kind: "buf_ne", Step: 2, ExpectHex: want}
-				if fi := c.frameInfo(mc.Mod, mc.Typ); fi != nil && (fi.LenOff >= 0 || fi.Alg != "") {
+				j := Judge{Kind: "buf_ne", Step: 2 + shift, ExpectHex: want}
+				if fi := c.frameInfo(mc.Mod, mc.Typ); !noreg && fi != nil && (fi.LenOff >= 0 || fi.Alg != "") {
 					// computed fields are recomputed concretely from the reference layout (a CRC is an uninterpreted
 					// function in the symbolic run: its model value is not an expectation)
 					j = Judge{Kind: "reencode_frame", Step: 2, ExpectHex: want, Frame: fi}
 				}
 				return &Violation{Detail: what, Model: map[string]any{"input": h.g.Concretize(h.m, val), "reference_hex": want, "engine_wire_hex": hexOf(evalBytes(out, val))},
-					Replay: &ReplayReq{Steps: h.encodeSteps(val), Judge: j}}
+					Replay: &ReplayReq{Steps: encSteps(val), Judge: j}}
 			}
 		}
 		if !c.Prove(fs, "length", Eq(out.Len, refB.Len), mkViol("encoded length differs from the reference layout")) {
